@@ -814,4 +814,146 @@ def liveEditor (i : Inner) (tok now : Nat) : Bool :=
   | some s => s.editor && !(s.expiresAt ≤ now)
   | none => false
 
+/-! ## D. The document/version protocol under concurrency
+
+One file, any number of clients.  `open_source` / `apply_source` read the disk *before* taking the
+state lock, so an operation is two steps: `begin…` (the unlocked `read_to_string`) and `finish`
+(the locked section, which sees only what the earlier read returned).  Steps of different clients
+interleave arbitrarily.  The locked sections are `syncDoc` / `applyDoc`, the very functions the
+sequential model of part C calls.  Everything else that touches the tracked document under the
+lock is a single atomic step. -/
+namespace Proto
+
+abbrev Content := List Char
+
+structure Pending where
+  isApply : Bool
+  expected : Nat
+  new : Content
+  /-- result of the unlocked `read_to_string` -/
+  disk : Content
+  /-- ghost: the content this client was given together with `expected` (honest client) -/
+  base : Option Content
+  /-- ghost: version of the tracked document when the read happened (0 = untracked) -/
+  seenVersion : Nat
+
+structure Client where
+  /-- `(version, content)` pairs returned to this client so far -/
+  issued : List (Nat × Content) := []
+  pending : Option Pending := none
+
+/-- a successful `apply_source` -/
+structure Success where
+  client : Nat
+  expected : Nat
+  version : Nat
+  content : Content
+  /-- ghost: content the writer had been given with `expected` -/
+  base : Option Content
+  /-- ghost: what was on disk when the write happened -/
+  diskBefore : Option Content
+
+structure PState where
+  disk : Option Content
+  entry : Option Doc := none
+  clients : Nat → Client := fun _ => {}
+  /-- chronological -/
+  successes : List Success := []
+
+def curVer (s : PState) : Nat :=
+  match s.entry with
+  | some e => e.version
+  | none => 0
+
+def upd (f : Nat → Client) (i : Nat) (c : Client) : Nat → Client := fun j => if j = i then c else f j
+
+def lookupIssued : List (Nat × Content) → Nat → Option Content
+  | [], _ => none
+  | (v, c) :: rest, e => if v = e then some c else lookupIssued rest e
+
+inductive Step where
+  | beginOpen (i : Nat)
+  | beginApply (i : Nat) (expected : Nat) (new : Content)
+  | finish (i : Nat)
+  /-- `upsert_tracked_document` with a client-supplied text (diagnostics / hover / completion with
+  a content override, by any session) -/
+  | override (t : Content)
+  /-- `build_analysis_context`: read under the lock and sync -/
+  | syncAll
+  /-- `delete_entry` (or `rename_entry` away): file and tracked document are dropped -/
+  | delete
+  /-- `create_entry` -/
+  | create (payload : Content)
+  /-- `rename_symbol`: writes `result` computed from the override buffer (or the disk) under the
+  lock, without any expected version -/
+  | symRename (buffer : Option Content) (result : Content)
+
+/-- the steps covered by the optimistic-concurrency protocol -/
+def Step.versioned : Step → Bool
+  | .beginOpen _ | .beginApply .. | .finish _ | .override _ | .syncAll => true
+  | _ => false
+
+def next (s : PState) : Step → PState
+  | .beginOpen i =>
+    match s.disk, (s.clients i).pending with
+    | some d, none =>
+      let p : Pending :=
+        { isApply := false, expected := 0, new := [], disk := d, base := none, seenVersion := curVer s }
+      { s with clients := upd s.clients i { (s.clients i) with pending := some p } }
+    | _, _ => s
+  | .beginApply i expected new =>
+    match s.disk, (s.clients i).pending with
+    | some d, none =>
+      let p : Pending :=
+        { isApply := true, expected := expected, new := new, disk := d
+          base := lookupIssued (s.clients i).issued expected, seenVersion := curVer s }
+      { s with clients := upd s.clients i { (s.clients i) with pending := some p } }
+    | _, _ => s
+  | .finish i =>
+    match (s.clients i).pending with
+    | none => s
+    | some p =>
+      if !p.isApply then
+        let d := syncDoc s.entry p.disk
+        { s with entry := some d
+                 clients := upd s.clients i { issued := (d.version, p.disk) :: (s.clients i).issued, pending := none } }
+      else
+        match applyDoc s.entry p.disk p.expected p.new with
+        | (d, none) =>
+          { s with entry := some d, clients := upd s.clients i { (s.clients i) with pending := none } }
+        | (d, some v) =>
+          { s with entry := some d, disk := some p.new
+                   clients := upd s.clients i { issued := (v, p.new) :: (s.clients i).issued, pending := none }
+                   successes := s.successes ++ [{ client := i, expected := p.expected, version := v
+                                                  content := p.new, base := p.base, diskBefore := s.disk }] }
+  | .override t => { s with entry := some (syncDoc s.entry t) }
+  | .syncAll =>
+    match s.disk with
+    | some d => { s with entry := some (syncDoc s.entry d) }
+    | none => s
+  | .delete => { s with disk := none, entry := none }
+  | .create payload =>
+    match s.disk with
+    | some _ => s
+    | none =>
+      { s with disk := some payload
+               entry := some { content := payload
+                               version := match s.entry with
+                                 | none => 1
+                                 | some e => max e.version 1 } }
+  | .symRename buffer result =>
+    match s.disk with
+    | none => s
+    | some d =>
+      let e := syncDoc s.entry (buffer.getD d)
+      { s with disk := some result, entry := some { content := result, version := satSucc e.version } }
+
+def run (s : PState) : List Step → PState
+  | [] => s
+  | st :: rest => run (next s st) rest
+
+def init (d0 : Content) : PState := { disk := some d0 }
+
+end Proto
+
 end TrustVerif.C19
